@@ -64,13 +64,34 @@ type Case struct {
 
 const closeTimeoutUs = 5_000_000 // mfs closeTimeout (5 s), used only to generate boundary values
 
+// Value ids: id 0 is cid.Undef; otherwise id/forms selects the sha2-256 digest and id%forms
+// the CID built around it. Ids with the same digest are *alias* CIDs: different values for the
+// republisher (cid.Cid equality is version + codec + multihash; MFS itself hands over such
+// pairs: NewEmptyRoot gives a CIDv0 root, SetCidBuilder(V1) + Flush the CIDv1 of the same
+// node), but equal for anything that compares digests only. Distinct ids are always distinct
+// CIDs, so the oracle keeps working on ids.
+const forms = 4
+
+func digestOf(id int) int { return id / forms }
+
+// alias reports whether a and b are different values built around the same digest
+func alias(a, b int) bool { return a != b && a > 0 && b > 0 && digestOf(a) == digestOf(b) }
+
 func valueCid(id int) cid.Cid {
 	if id == 0 {
 		return cid.Undef
 	}
-	h, err := mh.Sum([]byte(fmt.Sprintf("c21-value-%d", id)), mh.SHA2_256, -1)
+	h, err := mh.Sum([]byte(fmt.Sprintf("c21-value-%d", digestOf(id))), mh.SHA2_256, -1)
 	if err != nil {
 		panic(err)
+	}
+	switch id % forms {
+	case 1:
+		return cid.NewCidV0(h)
+	case 2:
+		return cid.NewCidV1(cid.DagProtobuf, h)
+	case 3:
+		return cid.NewCidV1(cid.DagCBOR, h)
 	}
 	return cid.NewCidV1(cid.Raw, h)
 }
@@ -96,13 +117,22 @@ func gen(t *rapid.T) Case {
 	if c.LongUs < c.ShortUs {
 		c.LongUs = c.ShortUs
 	}
-	c.Initial = rapid.SampledFrom([]int{0, 1, 1}).Draw(t, "initial")
+	// ids 1..3 are the three alias forms of digest 0 (id 0 is cid.Undef)
+	c.Initial = rapid.SampledFrom([]int{0, 1, 1, 2, 3}).Draw(t, "initial")
 
 	durations := []int64{
 		1, c.ShortUs / 2, c.ShortUs - 1, c.ShortUs, c.ShortUs + 1, (c.ShortUs + c.LongUs) / 2,
 		c.LongUs - 1, c.LongUs, c.LongUs + 1, 2*c.LongUs + 7, closeTimeoutUs - 1, closeTimeoutUs, closeTimeoutUs + 1,
 	}
-	next := 2 // fresh value ids
+	nextDigest := 1 // fresh digests; digest 0 belongs to the initial value and its aliases
+	// aliasOf returns a different value id with the digest of v
+	aliasOf := func(v int) int {
+		a := digestOf(v)*forms + (v%forms+rapid.IntRange(1, forms-1).Draw(t, "form"))%forms
+		if a == 0 { // digest 0, form 0 is cid.Undef
+			a = (v%forms)%(forms-1) + 1
+		}
+		return a
+	}
 	var used []int
 	if c.Initial != 0 {
 		used = append(used, c.Initial)
@@ -120,7 +150,7 @@ func gen(t *rapid.T) Case {
 		op := Op{Kind: k}
 		switch k {
 		case "update":
-			switch rapid.IntRange(0, 7).Draw(t, "valclass") {
+			switch rapid.IntRange(0, 10).Draw(t, "valclass") {
 			case 0: // same value as the previous update / the initial value
 				if len(used) > 0 {
 					op.Val = used[len(used)-1]
@@ -129,16 +159,25 @@ func gen(t *rapid.T) Case {
 				if len(used) > 0 {
 					op.Val = rapid.SampledFrom(used).Draw(t, "old")
 				}
+			case 2, 3: // alias of the previous update / the initial value: same digest, other CID
+				if len(used) > 0 {
+					op.Val = aliasOf(used[len(used)-1])
+				}
+			case 4: // alias of some earlier value
+				if len(used) > 0 {
+					op.Val = aliasOf(rapid.SampledFrom(used).Draw(t, "old"))
+				}
 			}
 			if op.Val == 0 {
-				op.Val = next
-				next++
+				op.Val = nextDigest*forms + rapid.IntRange(0, forms-1).Draw(t, "form")
+				nextDigest++
 			}
 			used = append(used, op.Val)
 		case "burst":
+			// consecutive ids: every digest comes in all its alias forms, back to back
 			op.N = rapid.IntRange(2, 60).Draw(t, "n")
-			op.Val = next
-			next += op.N
+			op.Val = nextDigest * forms
+			nextDigest += (op.N + forms - 1) / forms
 			used = append(used, op.Val+op.N-1)
 		case "waitloop":
 			op.N = rapid.IntRange(2, 30).Draw(t, "n")
@@ -448,7 +487,7 @@ func run(c Case) kit.Result {
 	closeExcuse := false
 	quiescentSeen := false
 	classes := map[string]bool{}
-	failThenUpdate, waitOverlapsUpdate := false, false
+	failThenUpdate, waitOverlapsUpdate, aliasPublished := false, false, false
 	sawFailure := false
 	openWaits := 0
 
@@ -474,6 +513,12 @@ func run(c Case) kit.Result {
 			}
 			if openWaits > 0 {
 				waitOverlapsUpdate = true
+			}
+			if alias(e.val, last) {
+				classes["update:alias-of-last-published"] = true
+			}
+			if issued >= 2 && alias(e.val, u[issued-1]) {
+				classes["update:alias-of-previous-update"] = true
 			}
 		case "updated":
 			returned++
@@ -512,6 +557,12 @@ func run(c Case) kit.Result {
 						sIdx = i
 						break
 					}
+				}
+				if alias(e.val, last) {
+					// the boundary of "unless it equals the last published one": same digest,
+					// different CID, has to be published
+					aliasPublished = true
+					classes["publish:alias-of-last-published"] = true
 				}
 				last = e.val
 				lastEndFailed = false
@@ -603,7 +654,7 @@ func run(c Case) kit.Result {
 		cls = append(cls, k)
 	}
 	sort.Strings(cls)
-	return kit.Result{NonTrivial: failThenUpdate || waitOverlapsUpdate, Classes: cls}
+	return kit.Result{NonTrivial: failThenUpdate || waitOverlapsUpdate || aliasPublished, Classes: cls}
 }
 
 // Known finding UPDATE-WINDOW: Republisher.Update replaces the pending value by draining the
@@ -616,7 +667,7 @@ const updateWindow = "UPDATE-WINDOW"
 
 var spec = kit.Spec[Case]{
 	Prop: "C21", Name: "main",
-	Rule:  "real mfs.Republisher in a synctest bubble; short 1-50 ms, long in {short, 3x, 10x, 200 ms, 6 s}; script <=25 of Update (fresh / repeated / earlier values) / burst of 2-60 Updates from a goroutine / loop of 2-30 WaitPubs from a goroutine / advance (boundary durations around short, long and the 5 s close timeout) / settle / WaitPub in its own goroutine / Close; publish plan <=6 of ok / fail / block(+-fail, +-honouring ctx); oracle over the mutex-ordered event log; non-trivial = a publish failure followed by an Update, or an Update issued while a WaitPub is outstanding",
+	Rule:  "real mfs.Republisher in a synctest bubble; short 1-50 ms, long in {short, 3x, 10x, 200 ms, 6 s}; values are CIDs v0 / v1 dag-pb / v1 dag-cbor / v1 raw around sha2-256 digests, so that different values can share a digest (alias CIDs), also as the initial lastPublished; script <=25 of Update (fresh / repeated / earlier value / alias of the previous or an earlier value) / burst of 2-60 Updates from a goroutine / loop of 2-30 WaitPubs from a goroutine / advance (boundary durations around short, long and the 5 s close timeout) / settle / WaitPub in its own goroutine / Close; publish plan <=6 of ok / fail / block(+-fail, +-honouring ctx); oracle over the mutex-ordered event log; non-trivial = a publish failure followed by an Update, or an Update issued while a WaitPub is outstanding, or a successful publish of an alias of the last published value",
 	Quick: 3000, Thorough: 7500,
 	Gen: gen, Run: run,
 }
